@@ -74,3 +74,5 @@ CHECKS.append(Check("imtlg.guard", ["torchjd.aggregation.imtl_g._IMTLGWeighting.
                     replay_keys=["C11.deg0"]))
 TRUSTED = ["pinv((tJ)(tJ)^T) = t^-2 pinv(J J^T), row norms scale by t (relational laws of the primitives)",
            "bridge lemma gramAgg_homogeneous (Lean)"]
+
+VALIDATE_ALGEBRAIC_PRIMS = True  # [V] the algebraic primitive contracts are sampled against real torch on every run
